@@ -17,7 +17,8 @@ check("C20", "exploration",
       "runtime differential monitor: exhaustive value enumeration through the real writer/reader, git config as independent observer, shadow-model monitor over operation sequences",
       "Every value of length <=4 (thorough <=5) over a 16-symbol alphabet holding every special character is written by "
       "the real ConfigFile and read back by dulwich and by `git config --list -z`; random names/subsections/multi-values, "
-      "git-written files read by dulwich, and set/add/remove/reload sequences against a shadow multi-dict. Decides the "
+      "git-written files read by dulwich, and set/add/remove/reload sequences against a shadow multi-dict (values recur: a small pool "
+      "and the key's current values; focused sequences on one or two names so multi-valued keys are set, re-added and removed). Decides the "
       "property on the executions produced; exhaustive only inside the stated sub-space.",
       "git 2.39.5 as reference reader/writer; values git cannot itself round-trip are excluded from the interop comparison only",
       "DESIGN.md §5 C20")
@@ -27,8 +28,9 @@ check("C19", "exploration",
       "Every stream the real pkt_line/write_pkt_line/BufferedPktLineWriter/write_sideband emit is validated frame by frame; "
       "Protocol, Protocol+eof/unread, ReceivableProtocol and PktLineParser decode it under all 2^(n-1) read partitions "
       "(short streams) or boundary-straddling partitions (long), and must return the reference payload sequence. All 65536 hex "
-      "prefixes x 4 payload lengths and non-hex classes must give frames or GitProtocolError/HangupException. Exhaustive only "
-      "inside those sub-spaces.",
+      "prefixes x 4 payload lengths and non-hex classes must give frames or GitProtocolError/HangupException. report-status pkt-lines "
+      "nested in side-band channel 1 are cut into frames at every point (and by dulwich's own write_sideband for multi-frame reports) and "
+      "decoded by the client's receive-pack tail. Exhaustive only inside those sub-spaces.",
       "independent reference decoder in the check; git 2.39.5 upload-pack as peer; frames over 65520 bytes count as malformed only when emitted",
       "DESIGN.md §5 C19")
 
@@ -63,7 +65,7 @@ check("C15", "exploration",
 check("C16", "exploration",
       "online reference-model monitor over generated ref-operation sequences on the real files/dict/reftable containers with C git listing the same directory; exhaustive ref-name sweep against a transcription of git's check_refname_format confirmed by the real binary",
       "After every one of 25 operations per sequence (set/add/delete conditional and unconditional, symrefs, pack_refs, re-open; 10 names incl. "
-      "a directory/file pair, a ref directly below refs/, symref chains, HEAD) return value, exception class and the full observable state of the real container are "
+      "a directory/file pair, a ref directly below refs/, symref chains, HEAD; and a conflict-dense universe with two siblings and a second level below the conflicting name) return value, exception class and the full observable state of the real container are "
       "compared with a map model; git for-each-ref/symbolic-ref list the files backend every few steps. check_ref_format is compared on ALL "
       "byte strings of length <=4 (thorough 5) over a 20-symbol alphabet; symref chains of every length 1..8 (through HEAD, packed, to "
       "present/absent/tag targets) read, listed and written through against what C git resolves; a second long-lived handle on the same "
@@ -77,7 +79,9 @@ check("C01", "exploration",
       "Objects built from generated field records (all four types, identities with odd bytes, times to 2^64, every +-HHMM spelling incl. -0000 "
       "and the legacy --700, 0..8 parents, encoding, folded extra headers, mergetags, PGP/SSH signatures, missing messages/blank lines, "
       "prefix-colliding tree names) are checked after every setter and at generated observation points; parsed texts are re-serialised "
-      "unchanged and after one-field edits; git hashes, reads and rebuilds the same logical objects. Decides the property on the inputs generated.",
+      "unchanged and after one-field edits; git hashes, reads and rebuilds the same logical objects; the same bytes handed out under a "
+      "trusted or verified SHA-1 / SHA-256 name must answer get_id() of either algorithm with that hash; one live instance per type is "
+      "re-filled through set_raw_string/set_raw_chunks with other texts (nothing of the earlier text may survive) and then edited. Decides the property on the inputs generated.",
       "reference serialiser written from the git format documentation; git 2.39.5; in-place mutation of a returned list counts only when the list is assigned back through the setter",
       "DESIGN.md §5 C01")
 
@@ -87,7 +91,8 @@ check("C12", "exploration",
       "with mode-only/type-only changes, file<->directory swaps and emptied directories: commit_tree/flatten/lookup inverse, canonical "
       "entry order of every subtree, diff soundness+completeness+uniqueness under 7 flag variants, path filters vs the definitional "
       "restriction, commit_tree_changes vs rebuild; one RenameDetector reused across thousands of diffs with max_files 1..3 and near-copy "
-      "blobs; git write-tree ids and git diff-tree raw output on random pairs.",
+      "blobs; git write-tree ids and git diff-tree raw output on random pairs; a read log on the store (nothing at or below a subtree "
+      "identical in both trees may be read, with and without rename detection); a type change is delete+add unless change_type_same.",
       "flat-listing reference; with RenameDetector only soundness invariants are demanded; git 2.39.5",
       "DESIGN.md §5 C12")
 
@@ -147,7 +152,7 @@ check("C10", "exploration",
       "runtime monitoring of maintenance: (1) closure-preservation monitor over random git-built histories and random dulwich maintenance sequences with an independent (git) closure oracle re-read after every step; (2) reader/repacker actors interleaved by the deterministic scheduler at system-call granularity on objects/** with a lookup-never-misses monitor",
       "150 (thorough 1500) histories from 17 build-op kinds (alternates, gitlinks, symlinks, detached HEAD, tags of blobs, duplicates across packs "
       "and loose files, aged files, deleted/reset branches) x 1..5 of 14 maintenance steps: after each step every object of the pre-state closure "
-      "of refs+HEAD is read through a fresh Repo (same type and bytes), git fsck --connectivity-only passes, vanished ids are unreachable and "
+      "of refs+HEAD is read through a fresh Repo (same type and bytes), git fsck --connectivity-only (objects and refs; commit-graph verification counted separately) passes, vanished ids are unreachable and "
       "outside the grace period (youngest copy counts: old pack + young loose duplicate); refs directly below refs/; maintenance through a "
       "long-lived handle after another process moved and re-packed a ref. Concurrent: 4 repacker workloads x 3 layouts (two packs, pack+loose, "
       "multi-pack-index) x 3 reader configurations, every schedule with <=2 preemptions; C git's prune-packed emulated call by call against "
